@@ -305,7 +305,7 @@ func getGoFile(pkg *packages.Package, typeName string) string {
 			continue
 		}
 
-		if obj.Name() == typeName {
+		if obj.Name() == typeName && obj.Parent() == pkg.Types.Scope() {
 			pos := pkg.Fset.Position(obj.Pos())
 			return filepath.Base(pos.Filename)
 		}
